@@ -3,6 +3,7 @@ package props
 import (
 	"fmt"
 	"math/rand"
+	"sort"
 
 	api "github.com/yorkie-team/yorkie/api/yorkie/v1"
 	"github.com/yorkie-team/yorkie/pkg/document/change"
@@ -132,6 +133,24 @@ func (sw *simWorker) runTwin(tag string, cfgA, cfgB sim.WorldCfg, rng *rand.Rand
 	sw.setServerGC(false)
 	return t, nil
 }
+
+// actorOrder returns the permutation that sorts a world's replicas by actor id.
+// Concurrent conflicts are decided by (lamport, actor), and actor ids are
+// server-generated ObjectIDs whose counter can wrap inside a long-running
+// worker, so two worlds are only comparable when this order is the same.
+func actorOrder(w *sim.World) string {
+	idx := make([]int, 0, len(w.Reps))
+	for i, r := range w.Reps {
+		if r.Activated || r.Doc != nil {
+			idx = append(idx, i)
+		}
+	}
+	sort.Slice(idx, func(a, b int) bool { return w.Reps[idx[a]].ID.Compare(w.Reps[idx[b]].ID) < 0 })
+	return fmt.Sprint(idx)
+}
+
+// comparable reports whether the two worlds resolve conflicts identically.
+func (t *twinRun) comparable() bool { return actorOrder(t.A) == actorOrder(t.B) }
 
 // compareTwins reports the first content difference between the two worlds.
 func (t *twinRun) compareTwins() (bool, string) {
